@@ -32,7 +32,7 @@ LEVEL_TEXT = ("_negotiate_as_acceptor executed symbolically over arbitrary title
               "EVT_REJECTED, kill, never established. _check_user_identity verified for every handler behaviour (absent, not "
               "implemented, raising, negative, positive).")
 LEVEL_NOTE = "trusted: pyvc, z3 (strings with uninterpreted strip), environment model of assoc/ae, callee contracts listed in the evidence."
-TECHNIQUE = "deductive: effect-trace contract on ACSE._negotiate_as_acceptor/_check_user_identity (AST->VC, z3)"
+TECHNIQUE = 'deductive: effect-trace contracts on ACSE._negotiate_as_acceptor, the four negotiation-handler call sites, send_reject (arbitrary integers, z3 LIA), the wire title setters (layout algebra) and the handler bookkeeping (AST->VC, z3)'
 
 
 def _send_reject():
